@@ -7,6 +7,8 @@ import (
 	"os"
 	"path/filepath"
 	"runtime"
+	rdebug "runtime/debug"
+	"runtime/pprof"
 	"sort"
 	"strconv"
 	"strings"
@@ -23,6 +25,8 @@ type CheckCfg struct {
 	MaxThreads     int      `json:"max_threads"`
 	MaxSchedPoints int      `json:"max_sched_points"`
 	MaxDecisions   int      `json:"max_decisions"`
+	MaxPreemptions *int     `json:"max_preemptions"`          // quick tier; default 2
+	MaxPreemptionsThorough *int `json:"max_preemptions_thorough"` // default 3
 	QuickSecs      int      `json:"quick_secs"`
 	ThoroughSecs   int      `json:"thorough_secs"`
 	MaxPaths       int      `json:"max_paths"`
@@ -145,6 +149,12 @@ func cmdCheck(args []string) int {
 	}
 	seed, _ := strconv.Atoi(os.Getenv("VERIF_SEED"))
 	t0 := time.Now()
+	if pf := os.Getenv("SYMGO_PROF"); pf != "" {
+		if f, err := os.Create(pf); err == nil {
+			pprof.StartCPUProfile(f)
+			defer pprof.StopCPUProfile()
+		}
+	}
 
 	checks, err := loadChecks()
 	if err != nil {
@@ -211,9 +221,12 @@ func cmdCheck(args []string) int {
 	// a worker returning from a pipe read (solver answer) must find a free P at once, otherwise it waits for
 	// the 10 ms preemption tick of another CPU-bound worker: keep more Ps than workers
 	runtime.GOMAXPROCS(2*nw + 4)
+	if os.Getenv("GOGC") == "" {
+		rdebug.SetGCPercent(400) // allocation-heavy interpreter, plenty of memory: collect less often
+	}
 	budget := cfg.QuickSecs
 	if budget == 0 {
-		budget = 120
+		budget = 240
 	}
 	if tierN == 1 {
 		budget = cfg.ThoroughSecs
@@ -238,6 +251,15 @@ func cmdCheck(args []string) int {
 		}
 		if h.MaxSchedPoints == 0 {
 			h.MaxSchedPoints = 400
+		}
+		h.MaxPreemptions = 2
+		if tierN == 1 {
+			h.MaxPreemptions = 3
+			if cfg.MaxPreemptionsThorough != nil {
+				h.MaxPreemptions = *cfg.MaxPreemptionsThorough
+			}
+		} else if cfg.MaxPreemptions != nil {
+			h.MaxPreemptions = *cfg.MaxPreemptions
 		}
 		if h.MaxDecisions == 0 {
 			h.MaxDecisions = 4000
